@@ -37,7 +37,8 @@ type OptSpec struct {
 	DefaultMask   string   `json:"default_mask,omitempty"`
 	NoUnquote     bool     `json:"no_unquote,omitempty"`
 	Init          *V       `json:"init,omitempty"`
-	DupTags       bool     `json:"dup_tags,omitempty"` // single-valued tags given twice; the last one counts
+	DupTags       bool     `json:"dup_tags,omitempty"`    // single-valued tags given twice; the last one counts
+	NoIniText     string   `json:"no_ini_text,omitempty"` // value of the no-ini tag (any non-empty value means no-ini)
 }
 
 type ArgSpec struct {
@@ -141,6 +142,34 @@ func (l *UList) UnmarshalFlag(s string) error {
 	return nil
 }
 
+// Level is a named integer type with a String method (and no MarshalFlag): it is
+// written and read as a plain number.
+type Level int
+
+func (l Level) String() string {
+	switch l {
+	case 0:
+		return "Debug"
+	case 1:
+		return "Info"
+	case 2:
+		return "Warning"
+	}
+	return fmt.Sprintf("Level(%d)", int(l))
+}
+
+// UPtr implements only Unmarshaler and keeps its state behind an unexported
+// pointer (nothing of it is ever rendered).
+type UPtr struct{ p *string }
+
+func (u *UPtr) UnmarshalFlag(s string) error {
+	if err := cur.callee("unmarshal", s, nil); err != nil {
+		return err
+	}
+	u.p = &s
+	return nil
+}
+
 // VV implements ValueValidator.
 type VV string
 
@@ -198,6 +227,8 @@ var scalarTypes = map[string]reflect.Type{
 	"um":       reflect.TypeOf(UM{}), "vv": reflect.TypeOf(VV("")), "cp": reflect.TypeOf(CP("")),
 	"filename": reflect.TypeOf(flags.Filename("")),
 	"ulist":    reflect.TypeOf(UList(nil)),
+	"level":    reflect.TypeOf(Level(0)),
+	"uptr":     reflect.TypeOf(UPtr{}),
 }
 
 var errorType = reflect.TypeOf((*error)(nil)).Elem()
@@ -328,7 +359,11 @@ func optTag(o *OptSpec) reflect.StructTag {
 		tagKV(&b, "hidden", "yes")
 	}
 	if o.NoIni {
-		tagKV(&b, "no-ini", "yes")
+		t := o.NoIniText
+		if t == "" {
+			t = "yes"
+		}
+		tagKV(&b, "no-ini", t)
 	}
 	if o.IniName != "" {
 		tagKV(&b, "ini-name", o.IniName)
